@@ -75,6 +75,14 @@ def actor_body(kind: str, root: str, holder: Dict[str, Any], name: str) -> Calla
         else:
             raise ValueError(kind)
         holder[name] = t
+        # the identity of the table this call returned (read straight from storage, not through the library: no
+        # scheduling point, nothing logged)
+        probe = holder.get("_identity_probe")
+        if probe is not None:
+            try:
+                holder.setdefault("_ident_at_return", {})[name] = probe()
+            except Exception as e:      # noqa: BLE001
+                holder.setdefault("_ident_at_return", {})[name] = "unreadable: " + repr(e)[:80]
         return "ok"
     return body
 
@@ -114,6 +122,15 @@ def run_case(ctx, backend: str, init: str, kinds: List[str], chooser_factory) ->
             os.remove(os.path.join(root, P.HINT))
     out: Dict[str, Any] = {"backend": backend, "init": init, "kinds": kinds}
     holder: Dict[str, Any] = {}
+
+    def identity_probe() -> Any:
+        import json as _json
+        try:
+            name = fetch(P.HINT).decode("utf-8").strip()
+        except Exception:       # noqa: BLE001
+            return None         # no pointer (yet / lost): nothing to compare
+        return _json.loads(fetch("metadata/" + name))["table_uuid"]
+    holder["_identity_probe"] = identity_probe
     with S.patched(sc, factory, shared_rlock=True):
         pre = None
         if init != "absent":
@@ -151,6 +168,7 @@ def run_case(ctx, backend: str, init: str, kinds: List[str], chooser_factory) ->
             md = t.metadata_manager.refresh()
             uuids[n] = md.table_uuid if md else None
         out["uuids"] = uuids
+        out["ident_at_return"] = dict(holder.get("_ident_at_return", {}))
         out["pre"] = pre
         out["meta_files"] = sorted(k for k in (store.objects if store is not None else []) if "/metadata/v" in k) if store is not None else \
             sorted(f for f in os.listdir(os.path.join(root, "metadata")) if f.startswith("v") and f.endswith(".metadata.json"))
@@ -185,6 +203,11 @@ def oracle(out: Dict[str, Any]) -> Optional[str]:
         kind = out["kinds"][int(n[1:])]
         if st != "ok" and not (kind == "open" and "No Iceberg table" in d and out["init"] == "absent"):
             return f"{kind} call {n} raised: {d}"
+    # a table that a successful create / open call returned keeps its identity
+    for n, u in sorted(out.get("ident_at_return", {}).items()):
+        if u is not None and "error" not in fin and u != fin["meta"]["table_uuid"]:
+            return (f"the table {n}'s call returned had identity {u}; at the end the pointer names identity {fin['meta']['table_uuid']}: "
+                    f"the identity of an existing table was replaced")
     ids = {u for u in out["uuids"].values()}
     if len(ids) > 1:
         return f"callers ended up on different tables: {out['uuids']}"
